@@ -17,9 +17,10 @@ E == T[l]
 Is(e) == l <= Len(T) /\ E.a = e
 Adv == l' = l + 1 /\ UNCHANGED tid
 NoFile == [ok |-> FALSE, mem |-> EmptyMem, start |-> NoAddr, base |-> <<0, 0>>, fmt |-> "none"]
-\* the logged projection of the real objects equals the (primed) spec state
+\* the logged projection of the real objects equals the (primed) spec state; the absolute address of an image without a
+\* single byte is not asserted (the property speaks about where bytes are)
 PostMatches(F) == /\ Len(E.len) = Len(F) /\ Len(E.abs) = Len(F)
-                  /\ \A n \in Ids(F) : E.len[n] = ILen(F, n) /\ E.abs[n] = Abs(F, n)
+                  /\ \A n \in Ids(F) : E.len[n] = ILen(F, n) /\ (ILen(F, n) > 0 => E.abs[n] = Abs(F, n))
 TInit == tid \in 1..Len(Traces) /\ l = 1 /\ Init /\ file = NoFile /\ TLCSet(tid, 1)
 Acyclic(ns) == \A k \in 1..Len(ns) : ns[k].par >= 0 /\ ns[k].par < k
 TTree == /\ Is("Tree") /\ forest = <<>> /\ Acyclic(E.nodes)
@@ -83,7 +84,8 @@ TLoad ==
   /\ UNCHANGED <<vars, file>> /\ Adv
 TNext == TTree \/ TNew \/ TAdd \/ TAppend \/ TSetSize \/ TJoin \/ TUpdateOffsets \/ TValidate \/ TExport \/ TFile \/ TRawFile \/ TLoad
 Constr == IF TLCGet(tid) < l THEN TLCSet(tid, l) ELSE TRUE
-Post == \A i \in 1..Len(Traces) :
+Post == /\ PrintT(<<"DONE", Len(Traces)>>)
+        /\ \A i \in 1..Len(Traces) :
           \/ TLCGet(i) - 1 = Len(Traces[i].ev)
           \/ PrintT(<<"REJ", Traces[i].id, TLCGet(i) - 1, Len(Traces[i].ev),
                       Traces[i].ev[IF TLCGet(i) <= Len(Traces[i].ev) THEN TLCGet(i) ELSE Len(Traces[i].ev)].a>>)
